@@ -48,11 +48,33 @@ class Connection:
       else:
         return self._process_not_unique(previous)
     else:
+      self._check_self_reference()
       self._check_segment_references(gfa)
       self._gfa = gfa
       self._initialize_references()
       self._gfa._register_line(self)
       return None
+
+  def _check_self_reference(self):
+    """
+    Checks, before anything is changed, that the line does not refer
+    to its own identifier (the placeholder line which would be created for
+    the reference would have the same name as the line itself).
+    """
+    if self.record_type not in gfapy.lines.finders.Finders.RECORDS_WITH_NAME:
+      return
+    name = self.get("name")
+    if name is None or gfapy.is_placeholder(name):
+      return
+    for fn in self.__class__.REFERENCE_FIELDS:
+      value = self.get(fn)
+      for ref in (value if isinstance(value, list) else [value]):
+        if isinstance(ref, gfapy.OrientedLine):
+          ref = ref.line
+        if isinstance(ref, str) and ref == name:
+          raise gfapy.NotUniqueError(
+            "Line: {}\n".format(str(self))+
+            "The line refers to its own identifier ({})".format(name))
 
   SEGMENT_REFERENCING_RECORD_TYPES = ["L", "C", "P", "E", "G", "F"]
 
